@@ -110,6 +110,15 @@ def run(tier, seed, replay):
             cases.append({"src": jqgen.alias_program(r), "inputs": r.sample(spare, 2)})
         # 2c. the witnesses of repaired findings
         cases += [{"src": c["src"], "inputs": c["inputs"]} for c in evalfam.regression_cases()]
+        # a value compared with ITSELF (one Go object on both sides): equality and order are decided by the values, element by element
+        # (nan is smaller than and different from every number, itself included), never by the identity of the operands
+        selfv = ["[nan]", "{a: nan}", "[[nan]]", "[1, nan]", "[nan, nan]", "[infinite - infinite]", "{a: [nan], b: 1}", "[1, [2, {a: nan}]]", "nan", "[.]", "[., nan]", "{a: .}", "[]", "{}", "[1, [2]]", "."]
+        selff = ["%s | . == .", "%s | . != .", "%s | . < .", "%s | . <= .", "%s | . > .", "%s | . >= .", "%s as $x | $x == $x, $x < $x", "%s as $x | [$x] == [$x], [$x] < [$x]", "%s as $x | {k: $x} == {k: $x}", "%s | (. - .)?, ([.] - [.])",
+                 "%s | [.] | index(.[0])", "%s | [.] | inside(.), contains(.)", "%s | [., .] | .[0] == .[1], .[0] < .[1]", "%s | . as [$a] ?// $a | $a == $a", "%s | [limit(2; repeat(.))] | .[0] == .[1]", "[%s] | .[0] == .[0], . == .",
+                 "%s | if . == . then \"same\" else \"different\" end", "%s | select(. == .)", "[%s | ., .] | (.[0] == .[1]), (.[0] >= .[1])", "%s | to_entries? | . == ."]
+        for v in selfv:
+            for f in (selff if not quick else r.sample(selff, 7)):
+                cases.append({"src": f % v, "inputs": r.sample(uni, 1) + [jqgen.V(None)]})
         # 3. corpus
         cor = evalfam.corpus_cases(work, vh)
         rep.cov["corpus_queries"] = len(cor)
